@@ -372,6 +372,35 @@ struct Runner {
 
     void step(std::string const& op, std::string const& o, json const& x)
     {
+        if (quiet) {
+            long r = 0;
+#ifdef VH_CONTRACT
+            vhc::armed = true;
+            if (sigsetjmp(vhc::jb, 1) != 0) {
+                // handler fired on a path step: the recorded twin of this call reports it; abandon this script
+                vhc::armed = false;
+                vh::life().end_window();
+                broken = true;
+                dirty  = true;
+                return;
+            }
+#endif
+            bool ok = apply(op, oi(o), x, r);
+#ifdef VH_CONTRACT
+            vhc::armed = false;
+#endif
+            if (!ok) {
+                ++nskip;
+                broken = true;
+                if (unsupported_seen.insert(op).second) { std::fprintf(stderr, "UNSUPPORTED %s %s\n", inst.c_str(), op.c_str()); }
+            }
+            if (ob[0]->size() > N || ob[1]->size() > N) {
+                dirty  = true;
+                broken = true;
+                reset();
+            }
+            return;
+        }
         json ev;
         ev["op"]  = op;
         ev["o"]   = o;
@@ -455,6 +484,7 @@ struct Runner {
         ++nev;
     }
 
+    bool quiet      = false;
     bool mark       = std::getenv("VH_MARK") != nullptr;
     bool ever_dirty = false;
     bool dirty = false; // an aborted call left the objects in an unknown state: do not destroy them
@@ -549,7 +579,11 @@ struct Runner {
                 continue;
             }
 #endif
+            // path prefix of a script (quiet): executed, not recorded - the same call from the same state is the
+            // final, recorded call of another script
+            quiet = ln.value("quiet", 0) != 0;
             step(ln["op"].get<std::string>(), ln["o"].get<std::string>(), ln["x"]);
+            quiet = false;
         }
     }
 
